@@ -64,6 +64,7 @@ package maven
 //@ func trimTrailingNulls
 //@   requires wfElems(elements)
 //@   loop 1 invariant wfElems(elements)
+//@   loop 1 decreases len(elements)   // termination (C06)
 //@   ensures wf: wfElems(result)
 
 //@ func parseVersionString
